@@ -83,7 +83,7 @@ impl Aarch64Relocation {
                 ((high & 0x7FFFF) << 5) | ((low & 3) << 29)
             },
             Self::ADRP => {
-                let value = value + 0xFFF;
+                let value = value.checked_add(0xFFF).ok_or(ImpossibleRelocation { } )?;
                 if !fits_signed_bitfield(value >> 12, 21) {
                     return Err(ImpossibleRelocation { } );
                 }
